@@ -9,7 +9,7 @@ from common import Ctx
 ID = "C02"
 PROPS = ["props/C02.v"]
 EXTRACTS = ["Solver"]
-THEOREMS = ['C02_emitted_only_reachable', 'C02_traversal_exact_when_checker_accepts', 'C02_closure_checker_sound', 'C02_success_leaves_no_required_project_unsolved', 'C02_final_check_failure_is_located', 'C02_unsolved_in_output_now_fails_honestly', 'C02_refuted_leftover_and_constraint_extra', 'C02_requested_extra_is_expanded']
+THEOREMS = ['C02_every_success_is_closed', 'C02_traversal_exact_for_every_success', 'C02_emitted_only_reachable', 'C02_traversal_exact_when_checker_accepts', 'C02_closure_checker_sound', 'C02_success_leaves_no_required_project_unsolved', 'C02_final_check_failure_is_located', 'C02_unsolved_in_output_now_fails_honestly', 'C02_refuted_leftover_and_constraint_extra', 'C02_requested_extra_is_expanded']
 MODES = ['calm', 'conflict', 'extras', 'extras', 'dense', 'cascade', 'srcextras', 'projects']
 RULE = ("universes (2-6 projects x 1-4 versions incl. pre/post/dev releases, requirements with the 7 operators, "
         "wildcards, extras, extra- and environment-markers, cycles, unreadable files, misnamed files), 1-3 input files, "
